@@ -2,14 +2,14 @@
 Theorems: coq/C36/Props.v.  Tie T2: objects with hand-written .note.gnu.property (x86 feature AND bits, ISA needed / ISA used /
 feature-2 used, generic UINT32 AND/OR types, missing notes, zero values) and .note.GNU-stack sections (absent / non-exec / exec)
 are linked by wild and by GNU ld with -z execstack / noexecstack / x86-64-vN; the output's property note and PT_GNU_STACK flags
-are read back.  wild vs model (wild_merge / wild_stack), ld vs spec (spec_merge / gnu_stack), wild vs ld (the property)."""
+are read back.  wild vs model (wild_merge / wild_stack), ld vs spec (gnu_note / gnu_stack), wild vs ld (the property)."""
 from wvlib import *
 import tempfile, shutil, struct
 import elfread
 
 TRUSTED = [
     "Coq 8.16.1 kernel incl. vm_compute; axioms: none",
-    "spec = GNU ld's property merge stated per property type and its stack rule (C36/Model.v spec_merge, gnu_stack), validated on every run against GNU ld 2.40 on the generated links",
+    "spec = GNU ld's property merge stated per property type and its stack rule (C36/Model.v gnu_note = spec_merge + GNU ld's unmerged single-input case, gnu_stack), validated on every run against GNU ld 2.40 on the generated links",
     "only 4-byte properties are modelled (wild skips the others: GNU_PROPERTY_STACK_SIZE, NO_COPY_ON_PROTECTED); shared-library inputs, -z ibt/-z shstk/-z cet-report and AArch64 BTI/PAC are outside the generated inputs",
     "an absent PT_GNU_STACK (GNU ld when no input has a stack note) is read as `not executable`, which is what current x86-64 kernels do",
 ]
@@ -20,7 +20,7 @@ Open Scope N_scope.
 Definition zf (n : N) : zflag := match n with 1 => ZExec | 2 => ZNoExec | _ => ZNone end.
 Definition ob (n : N) : option bool := match n with 0 => None | 1 => Some false | _ => Some true end.
 Definition run (files : list file) (isa : N) (notes : list N) (z : N) :=
-  (match wild_merge files isa with Some l => (1, l) | None => (0, []) end, spec_merge files isa,
+  (match wild_merge files isa with Some l => (1, l) | None => (0, []) end, gnu_note files isa,
    match wild_stack (map ob notes) (zf z) with None => 2 | Some true => 1 | Some false => 0 end,
    if gnu_stack (map ob notes) (zf z) then 1 else 0).
 """
@@ -184,7 +184,7 @@ def run(chk, replay=None):
             continue
         if l[0] != [list(x) for x in mg] or l[1] != mgs:
             stats["spec_mismatch"] += 1
-            chk.tie_break("spec validation C36.spec_merge/gnu_stack: GNU ld's output differs from the specification", rep)
+            chk.tie_break("spec validation C36.gnu_note/gnu_stack: GNU ld's output differs from the specification", rep)
         if w is None:
             stats["wild_rejects"] += 1
             continue
@@ -193,10 +193,10 @@ def run(chk, replay=None):
         if w[0] == l[0]:
             stats["props_equal"] += 1
         else:
-            zero_or = any(v == 0 and t in (NEED, GOR) for f in c["files"] for t, v in f)
+            unmerged_zero = len(c["files"]) == 1 and any(v == 0 and 0xb0000000 <= t <= 0xb000ffff for t, v in c["files"][0])
             what = f"GNU property note {[(hex(t), v) for t, v in w[0]]} with wild, {[(hex(t), v) for t, v in l[0]]} with GNU ld; inputs {[[(hex(t), v) for t, v in f] for f in c['files']]} isa={c['isa']}"
-            if zero_or and "C36-zero-valued-or-property" in known:
-                chk.known_hit("C36-zero-valued-or-property", rep)
+            if unmerged_zero and "C36-single-input-zero-generic-entry" in known:
+                chk.known_hit("C36-single-input-zero-generic-entry", rep)
             else:
                 chk.violation(what, rep)
         if w[1] == l[1]:
